@@ -1513,9 +1513,11 @@ def combos_sched(quick):
 
 def gen_sched(rng, c):
     s, m, e, d, L, k = c
-    ops = [{"op": "tell", "seed": rng.randrange(10**6), "layout": rand_layout(rng, TELL_ARGS)} for _ in range(rng.randint(0, 2))]
+    ops = [{"op": "tell", "seed": rng.randrange(10**6), "layout": rand_layout(rng, TELL_ARGS)}
+           for _ in range(rng.randint(0, 2))]
     ops.append({"op": "tell", "seed": rng.randrange(10**6), "layout": L})
-    ops += [{"op": "tell", "seed": rng.randrange(10**6), "layout": rand_layout(rng, TELL_ARGS)} for _ in range(rng.randint(1, 2))]
+    ops += [{"op": "tell", "seed": rng.randrange(10**6), "layout": rand_layout(rng, TELL_ARGS)}
+            for _ in range(rng.randint(1, 2))]
     return {"arch": k, "dtype": d, "sched": s, "add_mode": m, "emitters": EMITTER_SETS[e], "ops": ops}
 
 
@@ -1540,7 +1542,8 @@ def gen_dqd(rng, c):
         spec["measure_gradients"] = alt
     pre = [{"op": "add", "n": 3, "seed": rng.randrange(10**6), "layout": "exact"}]
     o = "dqd_round" if via == "scheduler" else "emitter_dqd"
-    ops = pre + [{"op": o, "seed": rng.randrange(10**6), "layout": rand_layout(rng, DQD_ARGS)} for _ in range(rng.randint(0, 1))]
+    ops = pre + [{"op": o, "seed": rng.randrange(10**6), "layout": rand_layout(rng, DQD_ARGS)}
+                 for _ in range(rng.randint(0, 1))]
     ops.append({"op": o, "seed": rng.randrange(10**6), "layout": L})
     ops.append({"op": o, "seed": rng.randrange(10**6), "layout": rand_layout(rng, DQD_ARGS)})
     case = {"arch": "grid", "dtype": d, "emitters": [spec], "ops": ops}
@@ -1553,7 +1556,8 @@ def combos_emitter_tell(quick):
     specs = [{"kind": "es"}, {"kind": "es", "ranker": "imp"}, {"kind": "es", "ranker": "obj", "es": "openai_es"},
              {"kind": "es", "ranker": "2rd", "restart": 1}, {"kind": "gauss"}, {"kind": "iso"}]
     if not quick:
-        specs += [{"kind": "es", "ranker": "obj", "es": "sep_cma_es"}, {"kind": "es", "ranker": "2imp", "es": "lm_ma_es"}]
+        specs += [{"kind": "es", "ranker": "obj", "es": "sep_cma_es"},
+                  {"kind": "es", "ranker": "2imp", "es": "lm_ma_es"}]
     return [(i, d, L) for i in range(len(specs)) for d in DTYPES for L in LAYOUTS], specs
 
 
@@ -1574,7 +1578,8 @@ def combos_opt():
 
 def gen_opt(rng, c):
     o, d, L = c
-    ops = [{"op": "step", "seed": rng.randrange(10**6), "layout": rand_layout(rng, ("gradient",))} for _ in range(rng.randint(0, 2))]
+    ops = [{"op": "step", "seed": rng.randrange(10**6), "layout": rand_layout(rng, ("gradient",))}
+           for _ in range(rng.randint(0, 2))]
     ops.append({"op": "step", "seed": rng.randrange(10**6), "layout": L})
     ops.append({"op": "step", "seed": rng.randrange(10**6), "layout": rand_layout(rng, ("gradient",))})
     return {"opt": o, "dtype": d, "ops": ops}
